@@ -122,10 +122,10 @@ class Session:
 
     def script_lines(self) -> list[str]:
         """the full line script for the model driver"""
-        return ["W " + l for l in self.header] + ["W go"] + ["W " + l for l in self.ops]
+        return ["W new"] + ["W " + l for l in self.header] + ["W go"] + ["W " + l for l in self.ops]
 
     def impl_lines(self) -> list[str]:
-        return ["ok"] * len(self.header) + ["ok go"] + self.out
+        return ["ok"] * (len(self.header) + 1) + ["ok go"] + self.out
 
     def fs_content(self, h: str, path: str) -> bytes | None:
         fs = self.w.fs[h]
